@@ -357,7 +357,7 @@ class Twin:
         if float(mv).is_integer() and wlp.get("maxint", True):
             mv = int(mv)
         self.wl = cls(max_volume=mv, auto_split=wlp.get("autosplit", True), diti_mode=wlp.get("diti", False), **args)
-        self.cfg = {"maxv": wlp["maxv"], "autosplit": wlp.get("autosplit", True)}
+        self.cfg = {"maxv": wlp["maxv"], "autosplit": wlp.get("autosplit", True), "diti": wlp.get("diti", False)}
         self.prev_recs = []
         self.prev_hist = [self._hist_copy(lw) for lw in self.lws]
         self.fullhist = bool(prog.get("flags", {}).get("fullhist"))
@@ -619,12 +619,12 @@ class Twin:
             elif name == "setconfig":
                 # the public attributes of the worklist are assigned between operations
                 new = dict(self.cfg)
-                for key in ("maxv", "autosplit"):
+                for key in ("maxv", "autosplit", "diti"):
                     if key in op:
                         new[key] = op[key]
                 cents = unit * 100
                 unitc = int(cents) if cents.denominator == 1 else 0
-                a = {"maxv": new["maxv"], "maxc": new["maxv"] * unitc, "autosplit": new["autosplit"]}
+                a = {"maxv": new["maxv"], "maxc": new["maxv"] * unitc, "autosplit": new["autosplit"], "diti": bool(new["diti"])}
                 if not (0 < a["maxc"] < 2**31):
                     raise RuntimeError("unknown abstract operation setconfig outside the exact grid")
                 if "maxv" in op:
@@ -632,6 +632,8 @@ class Twin:
                     wl.max_volume = int(mv) if float(mv).is_integer() and op.get("maxint", True) else mv
                 if "autosplit" in op:
                     wl.auto_split = op["autosplit"]
+                if "diti" in op:
+                    wl.diti_mode = bool(op["diti"])
                 self.cfg = new
             elif name in ("evo_aspirate", "evo_dispense"):
                 lw = self.lws[op["lw"]]
